@@ -297,6 +297,16 @@ func corpusInputs() ([]Input, []map[string]string) {
 		for i := 0; i < 6; i++ {
 			special(Input{Kind: "project", Project: &sut.Project{Root: "{\n" + strings.Repeat("  \"filler\": [1, 2, 3],\n", 0) + strings.Repeat(fmt.Sprintf("  \"k%d\": \"v\",\n", i), 1) + deepLines(40+i*25) + fmt.Sprintf("  \"bad%d\": 1 // {min: 2}\n}", i)}})
 		}
+		// or rule-sets that name a format type (the conversions read the rule-set they are given)
+		for _, ty := range []struct{ ex, ty string }{{`"2021-01-02T07:23:12+03:00"`, "datetime"}, {`"a@b.cc"`, "email"}, {`"https://a.b/c"`, "uri"},
+			{`"550e8400-e29b-41d4-a716-446655440000"`, "uuid"}, {`"2021-01-02"`, "date"}, {`1.5`, "float"}} {
+			special(Input{Kind: "project", Project: &sut.Project{Root: fmt.Sprintf("{\n  \"v\": %s, // {or: [{type: %q}, {type: \"integer\", min: 1}]}\n  \"w\": %s // {or: [\"integer\", %q]}\n}", ty.ex, ty.ty, ty.ex, ty.ty)}})
+		}
+		// regex schemas whose example leaves the generator little or no choice, alone and as a type of a project
+		for _, s := range []string{"/^a.c$/", `/id-.-.\.x/`, "/OK/", `/^v1\.0$/`, "/a.?b/", "/./", "/^(ab|cd)$/", "/^[0-9]{3}-x$/"} {
+			special(Input{Kind: "regex", Text: s})
+			special(Input{Kind: "project", Project: &sut.Project{Root: "{\n  \"r\": @r,\n  \"list\": [@r]\n}", Types: []sut.Named{{Name: "@r", Text: s, Regex: true}}}})
+		}
 		for _, s := range []string{"[1, 2, \"three\"]", "[\n \"a\", // c\n \"b\"\n]", "[1, 1]", "[", "[\"a.b\", \"1.5\", 1.5]"} {
 			inputs = append(inputs, Input{Kind: "enum", Text: s})
 		}
